@@ -9,7 +9,7 @@ The ALL-mode checker and `Sub` agree on first-order types, from every state:
 namespace QM.Types
 
 theorem checkRel_sub {T : Table} (hd : PartsDistinct T) (fuel : Nat) (asm : Asm) (st : Stk) (x y : Nat)
-    (hx : FO T x) (hy : FO T y) (hasm : ∀ p ∈ asm, Sub T p.1 p.2) (asm' : Asm)
+    (hx : FO T x) (hy : FO T y) (hasm : ∀ p ∈ asm, Sub T p.1 p.2.1) (asm' : Asm)
     (h : checkRel T .all fuel asm st x y = some (true, asm')) : Sub T x y :=
   (checkRel_good (Rules.sub hd) (childLt_rk T) fuel (rk T x + rk T y + 1) asm st x y hx hy (by omega)
     (fun p hp => Or.inl (hasm p hp)) true asm' h).2 rfl
